@@ -41,6 +41,20 @@ theorem ipc_trailer_constants :
     (IPC_TRAILER_SIZE_lost || IPC_TRAILER_SEEK_lost || IPC_TRAILER_MAGIC_OFFSET_lost ||
       IPC_TRAILER_LEN_BYTES_lost || ARROW_MAGIC_LEN_lost || ARROW_MAGIC_DIGIT_lost) = false := by decide
 
+
+/-- **Source shape of the modelled readers**: the guards that `next`/`pushNext`/`trailerCheck`,
+`decodeRecords` and `specAvro` mirror are still written the way they were modelled
+(`read_meta_len`: `UnexpectedEof` on the first word → `Ok(None)`, `?` on the second word, `0` →
+`Ok(None)`, negative → error; `maybe_next`: short metadata → error, body `read_exact`;
+`read_footer_length` and the `End(-10 - footer_len)` seek; `FooterTail` magic comparison;
+`StreamDecoder::{decode, finish}` loop condition, end-of-stream state and accepted final states;
+`Decoder::flush` → `TapeDecoder::finish` "Truncated record"; Avro `Reader::read` end-of-input). -/
+theorem reader_source_shape :
+    (SHAPE_READ_META_LEN_EOF_lost || SHAPE_READ_META_LEN_MARKER_lost || SHAPE_MAYBE_NEXT_CHECKS_lost ||
+      SHAPE_READ_BODY_EXACT_lost || SHAPE_READ_FOOTER_LENGTH_lost || SHAPE_FILE_READER_SEEKS_lost ||
+      SHAPE_FOOTER_TAIL_MAGIC_lost || SHAPE_STREAM_DECODER_FINISH_lost || SHAPE_STREAM_DECODER_LOOP_lost ||
+      SHAPE_JSON_FLUSH_lost || SHAPE_JSON_TAPE_FINISH_lost || SHAPE_AVRO_READ_EOF_lost) = false := by decide
+
 /-! ## (a) self-delimiting stream -/
 
 /-- **Truncated IPC stream, exact form.**  For every list of well-formed messages, with or
